@@ -7,13 +7,13 @@
 import Goloop.Proofs.C01G3
 namespace Goloop.C01
 section
-variable {L : List VoteRec} {base : List Msg}
+variable {L : List VoteRec} {base : List Eff}
 
 /-- H3 with the round bound of the lock invariant = the current round -/
-abbrev G3 (L : List VoteRec) (base : List Msg) (s : S) : Prop := H3 L base s.round s
+abbrev G3 (L : List VoteRec) (base : List Eff) (s : S) : Prop := H3 L base s.round s
 
 /-- the three invariants of the running machine together -/
-structure A3 (L : List VoteRec) (base : List Msg) (s : S) : Prop where
+structure A3 (L : List VoteRec) (base : List Eff) (s : S) : Prop where
   core : Core s
   h2 : H2 L s
   h3 : G3 L base s
@@ -65,9 +65,32 @@ theorem a3_rfr (s : S) (r : Nat) (hr : s.round < r) {R : Nat} (hR : R ≤ r) (hc
 theorem a3_stuck (s : S) (ha : A3 L base s) : A3 L base { s with stuck := true } :=
   ⟨core_stuck s ha.core, h2_stuck s ha.h2, h3_stuck ha.h3⟩
 
-theorem a3_emit (s : S) (e : Eff) (he : ∀ m, e ≠ .send m) (hf : ∀ h b, e ≠ .finalize h b) (ha : A3 L base s) :
+theorem a3_emit (s : S) (e : Eff) (he : ∀ m, e ≠ .send m) (hf : ∀ h b, e ≠ .finalize h b)
+    (hw : ∀ w vs, e = .write w (.voteList vs) → VLOk L (sentOf s.eff) vs) (ha : A3 L base s) :
     A3 L base (s.emit e) :=
-  ⟨core_emit_nonsend s e he ha.core, h2_emit s e he ha.h2, h3_emit s e he hf ha.h3⟩
+  ⟨core_emit_nonsend s e he ha.core, h2_emit s e he ha.h2, h3_emit s e he hf hw ha.h3⟩
+
+/-- the vote lists the machine writes to its WALs hold known votes of the current height -/
+theorem vlok_voteListOf (s : S) (r : Nat) (t : VType) (h2 : H2 L s) :
+    VLOk L (sentOf s.eff) (voteListOf s r t) := by
+  unfold voteListOf
+  refine ⟨?_, ?_⟩
+  · intro v hv
+    rw [List.mem_map] at hv
+    obtain ⟨e, he, rfl⟩ := hv
+    exact (h2.hv r t).2 e he
+  · intro v hv v' hv'
+    rw [List.mem_map] at hv hv'
+    obtain ⟨e, _, rfl⟩ := hv
+    obtain ⟨e', _, rfl⟩ := hv'
+    rfl
+
+/-- like `h3_build`, for a trace that grew by effects other than sends -/
+theorem h3_build2 {s s' : S} {R R' : Nat} (hh : H3 L base R s) (hn : s'.n = s.n)
+    (hs : sentOf s'.eff = sentOf s.eff) (hp : s.eff <+: s'.eff) (htr : T3 L s'.n s'.eff)
+    (hlock : LockInv L R' s') (himp : ImpInv s') (hcom : ComInv L s') : H3 L base R' s' :=
+  ⟨List.IsPrefix.trans hh.pre hp, hlock, himp, hcom, by rw [hn, hs]; exact hh.g3,
+    by rw [hn, hs]; exact hh.g2, htr⟩
 
 /-- fields outside all three invariants change (timer, polRound, commitRound, bpm, dbHeight) -/
 theorem a3_of_eq {s s' : S} (ha : A3 L base s) (h1 : ctrl s' = ctrl s) (h2 : gproj s' = gproj s)
@@ -112,7 +135,7 @@ theorem h2_send_vote (s : S) (t : VType) (v : Option Blk) (hh : H2 L s) (hpc : P
 
 /-! ### the mutual induction -/
 
-structure IH3 (L : List VoteRec) (base : List Msg) (f : Nat) : Prop where
+structure IH3 (L : List VoteRec) (base : List Eff) (f : Nat) : Prop where
   recvVote : ∀ s m, A3 L base s → Known L (sentOf s.eff) m → G3 L base (recvVote f s m)
   sendVote : ∀ s t v, A3 L base s → Fresh s (mstepOf t) → PC s t v → PV s t v → G3 L base (sendVote f s t v)
   handlePrevote : ∀ s mr, A3 L base s → G3 L base (handlePrevote f s mr)
@@ -194,8 +217,8 @@ theorem s3_sendVote (f : Nat) (ih : IH3 L base f) (s : S) (t : VType) (v : Optio
   have c3 := core_emit_send_vote _ t v c2 (by simpa [stuck_emit] using hst) f2
   have b3 := h2_send_vote s t v ha.h2 hpc
   have g1 := h3_emit s (.write .round (.msg (.vote ⟨s.me, s.height, t, s.round, v⟩))) (by intro m; simp)
-    (by intro h b; simp) ha.h3
-  have g2 := h3_emit _ (.sync .round) (by intro m; simp) (by intro h b; simp) g1
+    (by intro h b; simp) (by intro w vs h'; cases h') ha.h3
+  have g2 := h3_emit _ (.sync .round) (by intro m; simp) (by intro h b; simp) (by intro w vs h'; cases h') g1
   have b2 : H2 L ((s.emit (.write .round (.msg (.vote ⟨s.me, s.height, t, s.round, v⟩)))).emit (.sync .round)) :=
     h2_emit _ (.sync .round) (by intro m; simp)
       (h2_emit s (.write .round (.msg (.vote ⟨s.me, s.height, t, s.round, v⟩))) (by intro m; simp) ha.h2)
@@ -356,38 +379,53 @@ theorem enterCommit_eq (f : Nat) (s : S) (b : Blk) (r : Nat) :
   unfold Goloop.C01.enterCommit commitState
   rfl
 
-theorem emit_projs (x : S) (e : Eff) (he : ∀ m, e ≠ .send m) (hf : ∀ h b, e ≠ .finalize h b) :
-    ctrl (x.emit e) = ctrl x ∧ gproj (x.emit e) = gproj x ∧ tproj (x.emit e) = tproj x ∧
+theorem emit_projs (x : S) (e : Eff) (he : ∀ m, e ≠ .send m) :
+    ctrl (x.emit e) = ctrl x ∧ gproj (x.emit e) = gproj x ∧ sentOf (x.emit e).eff = sentOf x.eff ∧
     kproj (x.emit e) = kproj x := by
   have hs : sentOf (x.emit e).eff = sentOf x.eff := by
     unfold S.emit; simp only [sentOf_append]; cases e <;> simp [sentOf] at he ⊢
-  have hfn : finalizedOf (x.emit e).eff = finalizedOf x.eff := by
-    unfold S.emit; simp only [finalizedOf_append']; cases e <;> simp [finalizedOf] at hf ⊢
-  refine ⟨?_, ?_, ?_, ?_⟩
+  refine ⟨?_, ?_, hs, ?_⟩
   · unfold ctrl; rw [hs]; rfl
   · unfold gproj; rw [hs]; rfl
-  · unfold tproj; rw [hs, hfn]; rfl
   · unfold kproj; rw [hs]; rfl
 
 theorem commitState_spec (s1 : S) (b : Blk) (r : Nat) :
     ctrl (commitState s1 b r) = ctrl s1 ∧ gproj (commitState s1 b r) = gproj s1 ∧
-    tproj (commitState s1 b r) = tproj s1 ∧ kproj (commitState s1 b r) = kproj s1 ∧
+    ((commitState s1 b r).n = s1.n ∧ sentOf (commitState s1 b r).eff = sentOf s1.eff ∧
+      s1.eff <+: (commitState s1 b r).eff ∧
+      ∀ L : List VoteRec, T3 L s1.n s1.eff →
+        VLOk L (sentOf s1.eff) (voteListOf { s1 with commitRound := (r : Int) } r .precommit) →
+        T3 L (commitState s1 b r).n (commitState s1 b r).eff) ∧
+    kproj (commitState s1 b r) = kproj s1 ∧
     iproj (commitState s1 b r) = iproj s1 ∧ (commitState s1 b r).cur.id = some b := by
   unfold commitState
   simp only []
   obtain ⟨p1, p2, p3, p4⟩ := emit_projs { s1 with commitRound := (r : Int) }
     (.write .commit (.voteList (voteListOf { s1 with commitRound := (r : Int) } r .precommit)))
-    (by intro m; simp) (by intro h b; simp)
+    (by intro m; simp)
   obtain ⟨q1, q2, q3, q4⟩ := emit_projs (({ s1 with commitRound := (r : Int) } : S).emit
     (.write .commit (.voteList (voteListOf { s1 with commitRound := (r : Int) } r .precommit))))
-    (.sync .commit) (by intro m; simp) (by intro h b; simp)
+    (.sync .commit) (by intro m; simp)
   have r1 := q1.trans p1
   have r2 := q2.trans p2
   have r3 := q3.trans p3
   have r4 := q4.trans p4
+  have rt : ∀ L : List VoteRec, T3 L s1.n s1.eff →
+      VLOk L (sentOf s1.eff) (voteListOf { s1 with commitRound := (r : Int) } r .precommit) →
+      T3 L s1.n ((s1.eff ++ [.write .commit (.voteList (voteListOf { s1 with commitRound := (r : Int) } r .precommit))])
+        ++ [.sync .commit]) := by
+    intro L ht hv
+    apply t3_append _ _ (by intro h b h'; cases h') (by intro w vs h'; cases h')
+    apply t3_append _ ht (by intro h b h'; cases h')
+    intro w vs h'
+    cases h'
+    exact hv
+  have rp : s1.eff <+: ((s1.eff ++ [.write .commit (.voteList (voteListOf { s1 with commitRound := (r : Int) } r .precommit))])
+        ++ [.sync .commit]) :=
+    List.IsPrefix.trans (List.prefix_append _ _) (List.prefix_append _ _)
   split
-  · exact ⟨r1, r2, r3, r4, rfl, rfl⟩
-  · exact ⟨r1, r2, r3, r4, rfl, setByID_id _ _⟩
+  · exact ⟨r1, r2, ⟨rfl, r3, rp, rt⟩, r4, rfl, rfl⟩
+  · exact ⟨r1, r2, ⟨rfl, r3, rp, rt⟩, r4, rfl, setByID_id _ _⟩
 
 theorem s3_enterCommit (f : Nat) (ih : IH3 L base f) (s : S) (b r : Nat) (ha : A3 L base s)
     (hd : (votesFor s.hvs r .precommit).decision s.n = some (some b)) :
@@ -411,24 +449,34 @@ theorem s3_enterCommit (f : Nat) (ih : IH3 L base f) (s : S) (b r : Nat) (ha : A
     have h1 : (commitState s1 b r).round = s1.round := congrArg Ctrl.round d1
     have h2 : s1.round = s.round := by have := congrArg (fun p => p.2.1) e3; exact this
     rw [h1, h2]
+  have e1n : s1.n = s.n := congrArg (fun p => p.1) e1
+  have e1e : s1.eff = s.eff := congrArg (fun p => p.2) e1
+  obtain ⟨dn, ds, dp, dt⟩ := d3
+  have hp4 : s.eff <+: (commitState s1 b r).eff := by rw [← e1e]; exact dp
+  have hn4 : (commitState s1 b r).n = s.n := by rw [dn, e1n]
+  have hs4 : sentOf (commitState s1 b r).eff = sentOf s.eff := by rw [ds, e1e]
+  have ht4 : T3 L (commitState s1 b r).n (commitState s1 b r).eff := by
+    apply dt L
+    · rw [e1n, e1e]; exact ha.h3.tr
+    · exact vlok_voteListOf { s1 with commitRound := (r : Int) } r .precommit (h2_of_gproj_eq (s := s1) rfl b1)
   have g4 : G3 L base (commitState s1 b r) := by
     unfold G3
     rw [er]
     rcases e5 with e5 | ⟨a1, a2, a3⟩
-    · exact h3_of_stuck ha.h3 (d3.trans e1) (by rw [es]; exact e5)
-    · refine h3_frame ha.h3 (Nat.le_refl _) (d3.trans e1) (d4.trans e2) (by rw [es, a1]; exact id) ?_ ?_
+    · have hstk : (commitState s1 b r).stuck = true := by rw [es]; exact e5
+      exact h3_build2 ha.h3 hn4 hs4 hp4 ht4 (by intro h; rw [hstk] at h; cases h)
+        (by intro h; rw [hstk] at h; cases h) (by intro h; rw [hstk] at h; cases h)
+    · have hk4 : kproj (commitState s1 b r) = kproj s := d4.trans e2
+      refine h3_build2 ha.h3 hn4 hs4 hp4 ht4
+        (lockInv_of_kproj hk4 (Nat.le_refl _) (by rw [es, a1]; exact id) ha.h3.lock) ?_ ?_
       · intro _ _ _ h5
         rw [ep, a3] at h5
         exact absurd h5 (by decide)
       · intro _ _
         refine ⟨r, b, d6, ?_⟩
-        have h1 : (commitState s1 b r).n = s.n := by
-          have := congrArg (fun p => p.1) (d3.trans e1); exact this
-        have h2 : sentOf (commitState s1 b r).eff = sentOf s.eff := by
-          have := congrArg (fun p => p.2.1) (d3.trans e1); exact this
         have h3 : (commitState s1 b r).height = s.height := by
           have := congrArg (fun p => p.1) (d5.trans e3); exact this
-        rw [h1, h2, h3]
+        rw [hn4, hs4, h3]
         exact hq
   have h8 : (commitState s1 b r).stuck = true ∨ (commitState s1 b r).step = stCommit := by
     rw [es, ep]
@@ -448,7 +496,7 @@ theorem s3_enterPrecommitWait (f : Nat) (ih : IH3 L base f) (s : S) (ha : A3 L b
   have a1 := a3_rfs s stPrecommitWait (by decide) (by decide) (by decide) ha
   generalize s.resetForNewStep stPrecommitWait = s1 at a1 ⊢
   have a2 := a3_emit s1 (.write .round (.voteList (voteListOf s1 s1.round .precommit))) (by intro m; simp)
-    (by intro h b; simp) a1
+    (by intro h b; simp) (by intro w vs h'; cases h'; exact vlok_voteListOf s1 _ _ a1.h2) a1
   generalize (s1.emit (.write .round (.voteList (voteListOf s1 s1.round .precommit)))) = s2 at a2 ⊢
   split
   · rename_i b hd
@@ -465,7 +513,7 @@ theorem s3_enterPrevoteWait (f : Nat) (ih : IH3 L base f) (s : S) (ha : A3 L bas
   have a1 := a3_rfs s stPrevoteWait (by decide) (by decide) (by decide) ha
   generalize s.resetForNewStep stPrevoteWait = s1 at a1 ⊢
   have a2 := a3_emit s1 (.write .round (.voteList (voteListOf s1 s1.round .prevote))) (by intro m; simp)
-    (by intro h b; simp) a1
+    (by intro h b; simp) (by intro w vs h'; cases h'; exact vlok_voteListOf s1 _ _ a1.h2) a1
   generalize (s1.emit (.write .round (.voteList (voteListOf s1 s1.round .prevote)))) = s2 at a2 ⊢
   split
   · exact ih.enterPrecommit _ a2
@@ -632,9 +680,10 @@ theorem s3_enterPrecommit (f : Nat) (ih : IH3 L base f) (s : S) (ha : A3 L base 
         have f2 : Fresh { s1 with lockedRound := s1.round, locked := some (b, s1.cur.hasValidated) } (mstepOf .precommit) :=
           fresh_of_ctrl (s := s1) rfl _ f1
         apply a3_sendVote f ih
-        · apply a3_emit _ _ (by intro m; simp) (by intro h b; simp)
+        · apply a3_emit _ _ (by intro m; simp) (by intro h b; simp) (by intro w vs h'; cases h')
+          apply a3_emit _ _ (by intro m; simp) (by intro h b; simp) (by intro w vs h'; cases h')
           apply a3_emit _ _ (by intro m; simp) (by intro h b; simp)
-          apply a3_emit _ _ (by intro m; simp) (by intro h b; simp)
+            (by intro w vs h'; cases h'; exact vlok_voteListOf _ _ _ a2.h2)
           exact a2
         · apply fresh_emit_nonsend _ _ (by intro m; simp)
           apply fresh_emit_nonsend _ _ (by intro m; simp)
@@ -652,7 +701,7 @@ theorem s3_enterPrecommit (f : Nat) (ih : IH3 L base f) (s : S) (ha : A3 L base 
           ⟨core_of_ctrl_eq (s := s1) rfl a1.core, h2_of_gproj_eq (s := s1) rfl a1.h2, g⟩
           (fresh_of_ctrl (s := s1) rfl _ f1) (pc_nil _ _) (pv_nil_precommit _)
 
-theorem ih3_all (L : List VoteRec) (base : List Msg) : ∀ f, IH3 L base f := by
+theorem ih3_all (L : List VoteRec) (base : List Eff) : ∀ f, IH3 L base f := by
   intro f
   induction f with
   | zero => exact ih3_zero
@@ -841,14 +890,15 @@ theorem e3_async (s : S) (ha : A3 L base s) : G3 L base (async s) := by
 
 /-! ### first start and runs -/
 
-theorem h3_init {R : Nat} (s : S) (hs : sentOf s.eff = []) (hf : finalizedOf s.eff = []) (hp : s.pend = .none)
+theorem h3_init {R : Nat} (s : S) (hs : s.eff = []) (hp : s.pend = .none)
     (hnc : NC s) : H3 L [] R s := by
+  have hs' : sentOf s.eff = [] := by rw [hs]; rfl
   refine ⟨List.nil_prefix, ?_, ?_, comInv_of_nc hnc, ?_, ?_, ?_⟩
-  · intro _ v b hv; rw [hs] at hv; cases hv
+  · intro _ v b hv; rw [hs'] at hv; cases hv
   · intro _ b hb; rw [hp] at hb; cases hb
-  · intro pre w post hd; rw [hs] at hd; simp at hd
-  · intro pre v post b hd; rw [hs] at hd; simp at hd
-  · intro h b hm; rw [hf] at hm; cases hm
+  · intro pre w post hd; rw [hs'] at hd; simp at hd
+  · intro pre v post b hd; rw [hs'] at hd; simp at hd
+  · rw [hs]; exact t3_nil _ _
 
 theorem e3_start_fresh (s : S) (he : s.eff = []) (hns : s.started = false) : G3 L [] (start s) := by
   unfold start
@@ -867,26 +917,27 @@ theorem e3_start_fresh (s : S) (he : s.eff = []) (hns : s.started = false) : G3 
   have he1 : s1.eff = [] := hk.1
   simp only [he1, walDurable_nil, applyRoundWAL_nil, applyLockWAL_nil, applyCommitWAL_nil]
   have hp1 : s1.pend = .none := hk.2
-  have hc : ∀ x : S, sentOf x.eff = [] → finalizedOf x.eff = [] → x.hvs = [] → x.pend = .none → NC x →
+  have hc : ∀ x : S, x.eff = [] → x.hvs = [] → x.pend = .none → NC x →
       A3 L [] x := by
-    intro x h1 h1' h2 h3 h4
-    exact ⟨core_of_nosent x h1 h3, h2_of_nosent x h1 h2, h3_init x h1 h1' h3 h4⟩
+    intro x h1 h2 h3 h4
+    have h1' : sentOf x.eff = [] := by rw [h1]; rfl
+    exact ⟨core_of_nosent x h1' h3, h2_of_nosent x h1' h2, h3_init x h1 h3 h4⟩
   split
   · exact (ih3_all L [] _).enterPropose _ (a3_rfs _ _ (by decide) (by decide) (by decide)
-      (hc _ rfl rfl hhv hp1 hnc))
+      (hc _ rfl hhv hp1 hnc))
   split
-  · exact (ih3_all L [] _).enterPropose _ (hc _ rfl rfl hhv hp1 hnc)
+  · exact (ih3_all L [] _).enterPropose _ (hc _ rfl hhv hp1 hnc)
   split
-  · exact (ih3_all L [] _).enterPrevote _ (hc _ rfl rfl hhv hp1 hnc)
-  split
-  · split
-    · exact (ih3_all L [] _).enterPrevoteWait _ (hc _ rfl rfl hhv hp1 hnc)
-    · exact A3.h3 (hc _ rfl rfl hhv hp1 hnc)
+  · exact (ih3_all L [] _).enterPrevote _ (hc _ rfl hhv hp1 hnc)
   split
   · split
-    · exact (ih3_all L [] _).enterPrecommitWait _ (hc _ rfl rfl hhv hp1 hnc)
-    · exact A3.h3 (hc _ rfl rfl hhv hp1 hnc)
-  · exact A3.h3 (hc _ rfl rfl hhv hp1 hnc)
+    · exact (ih3_all L [] _).enterPrevoteWait _ (hc _ rfl hhv hp1 hnc)
+    · exact A3.h3 (hc _ rfl hhv hp1 hnc)
+  split
+  · split
+    · exact (ih3_all L [] _).enterPrecommitWait _ (hc _ rfl hhv hp1 hnc)
+    · exact A3.h3 (hc _ rfl hhv hp1 hnc)
+  · exact A3.h3 (hc _ rfl hhv hp1 hnc)
 
 theorem vstep_a3 (s : S) (e : Event) (hn : e.noCrash) (hl : ∀ m, e = .vote m → m ∈ L) (ha : A3 L base s) :
     A3 L base (vstep s e) := by
@@ -913,7 +964,7 @@ theorem run_a3 (s : S) (evs : List Event) (hn : ∀ e ∈ evs, e.noCrash)
     exact vstep_a3 s e (hn e List.mem_cons_self) (fun m hm => hl m (by rw [hm]; exact List.mem_cons_self)) ha
 
 /-- re-basing / enlarging the set of delivered votes -/
-theorem a3_rebase {s : S} (base' : List Msg) (hp : base' <+: sentOf s.eff) (ha : A3 L base s) : A3 L base' s :=
+theorem a3_rebase {s : S} (base' : List Eff) (hp : base' <+: s.eff) (ha : A3 L base s) : A3 L base' s :=
   ⟨ha.core, ha.h2, h3_rebase base' hp ha.h3⟩
 
 end
